@@ -70,6 +70,18 @@ func init() {
 		st.assume(Gt(id, IntLit(0)))
 		return id, true
 	})
+	reg("(github.com/google/uuid.UUID).String", nil, func(st *State, fr *Frame, call ssa.CallInstruction, a []SVal) (SVal, bool) {
+		return st.uuidStr(st.scalar(a[0])), true
+	})
+	reg("github.com/google/uuid.Parse", nil, func(st *State, fr *Frame, call ssa.CallInstruction, a []SVal) (SVal, bool) {
+		// the canonical text form parses back to the same id (assumed of the uuid package)
+		s := st.scalar(a[0])
+		id := st.fresh("parsed", SInt)
+		e := st.fresh("parseerr", SInt)
+		st.assume(Ge(e, IntLit(0)))
+		st.assume(Implies(Eq(e, IntLit(0)), Eq(id, st.uuidParse(s))))
+		return &TupleV{[]SVal{id, e}}, true
+	})
 	reg("sort.Slice", []string{"E:*"}, func(st *State, fr *Frame, call ssa.CallInstruction, a []SVal) (SVal, bool) {
 		return st.sortSlice(a[0]), true
 	})
@@ -195,6 +207,21 @@ func (st *State) powReal(x, y *Term) *Term {
 	r := App(SReal, f, x, y)
 	st.assume(Implies(Gt(x, RealLit(0)), Gt(r, RealLit(0))))
 	return r
+}
+
+func (st *State) uuidStr(id *Term) *Term {
+	f := st.declareFun("spec.uuid_str", []Sort{SInt}, SStr)
+	g := st.declareFun("spec.uuid_parse", []Sort{SStr}, SInt)
+	if !st.declared["axiom:uuid_str"] {
+		st.declared["axiom:uuid_str"] = true
+		x := Const("x!quuid", SInt)
+		st.assume(Forall([]*Term{x}, And(Eq(App(SInt, g, App(SStr, f, x)), x), Eq(st.strLen(App(SStr, f, x)), IntLit(36))), App(SStr, f, x)))
+	}
+	return App(SStr, f, id)
+}
+
+func (st *State) uuidParse(s *Term) *Term {
+	return App(SInt, st.declareFun("spec.uuid_parse", []Sort{SStr}, SInt), s)
 }
 
 // durOf: the time.Duration a *durationpb.Duration message denotes (protobuf well-known type; the
@@ -389,6 +416,16 @@ func (st *State) specBuiltin(env *Env, e *Expr) (SVal, types.Type, bool) {
 		}
 		b, _ := st.elab(env, e.Args[1])
 		return Select(pos, st.scalar(b)), tInt, true
+	case "uuidstr":
+		a, _ := st.elab(env, e.Args[0])
+		return st.uuidStr(st.scalar(a)), tString, true
+	case "uuidparse":
+		a, _ := st.elab(env, e.Args[0])
+		return st.uuidParse(st.scalar(a)), tInt, true
+	case "concat":
+		a, _ := st.elab(env, e.Args[0])
+		b, _ := st.elab(env, e.Args[1])
+		return st.strConcat(st.scalar(a), st.scalar(b)), tString, true
 	case "asduration":
 		a, _ := st.elab(env, e.Args[0])
 		p := st.scalar(a)
